@@ -311,7 +311,7 @@ static std::vector< Finding > parse_valgrind(const std::string &log, uint64_t &s
     std::string kind = vg_kind(h);
     if (kind.empty())
       continue;
-    std::string site, frames;
+    std::string site, frames, fallback;
     size_t j = i + 1;
     for (; j < lines.size(); ++j) {
       std::string l = strip(lines[j]);
@@ -332,10 +332,15 @@ static std::vector< Finding > parse_valgrind(const std::string &log, uint64_t &s
       std::string loc = lp == std::string::npos ? "" : rest.substr(lp + 1);
       if (frames.size() < 700)
         frames += (frames.empty() ? "" : " <- ") + bare_function(func) + loc;
-      if (site.empty() && !foreign_function(func) && loc.find("vg_replace") == std::string::npos &&
-          loc.find("(in /usr") == std::string::npos && loc.find("(in /lib") == std::string::npos)
+      // project sources are *.hpp / *.cpp (the standard library's are not)
+      if (site.empty() && (loc.find(".hpp:") != std::string::npos || loc.find(".cpp:") != std::string::npos))
         site = bare_function(func);
+      if (fallback.empty() && !foreign_function(func) && loc.find("vg_replace") == std::string::npos &&
+          loc.find("(in /usr") == std::string::npos && loc.find("(in /lib") == std::string::npos)
+        fallback = bare_function(func);
     }
+    if (site.empty())
+      site = fallback;
     if (kind == "syscall-param") {
       ++syscall_param;
       continue;
@@ -379,7 +384,7 @@ static std::vector< Finding > parse_sanitizer(const std::string &log) {
         for (size_t j = i + 1; j < lines.size() && j < i + 6; ++j)
           if (lines[j].find("address points to the zero page") != std::string::npos)
             kind = "null-deref";
-      std::string site, frames;
+      std::string site, frames, fallback;
       for (size_t j = i + 1; j < lines.size() && j < i + 40; ++j) {
         const std::string &f = lines[j];
         size_t h = f.find("#");
@@ -396,10 +401,15 @@ static std::vector< Finding > parse_sanitizer(const std::string &log) {
         std::string func = sp == std::string::npos ? fn : fn.substr(0, sp);
         if (frames.size() < 700)
           frames += (frames.empty() ? "" : " <- ") + bare_function(func) + " " + loc;
-        if (site.empty() && !foreign_function(func) && loc.find("(/") != 0 && loc.find("/usr/") == std::string::npos &&
+        if (site.empty() && (loc.find(".hpp:") != std::string::npos || loc.find(".cpp:") != std::string::npos) &&
             loc.find("libsanitizer") == std::string::npos)
           site = bare_function(func);
+        if (fallback.empty() && !foreign_function(func) && loc.find("(/") != 0 &&
+            loc.find("/usr/") == std::string::npos && loc.find("libsanitizer") == std::string::npos)
+          fallback = bare_function(func);
       }
+      if (site.empty())
+        site = fallback;
       if (site.empty())
         site = "unknown-site";
       out.push_back({"C12:asan:" + kind + ":" + site, rest + " | " + frames});
